@@ -7,7 +7,7 @@ From QV Require Import Spec.MsgWriterS.
 From QV Require Import Base.ListX Model.MsgWriter Proofs.MsgWriterP Proofs.MsgWriterScanP
      Proofs.MsgWriterNameP Proofs.MsgWriterInvP Proofs.MsgWriterTopP Proofs.MsgWriterClosP
      Proofs.MsgWriterNameSP Proofs.MsgWriterLayP Proofs.MsgWriterOpP Proofs.MsgWriterStepP
-     Proofs.MsgWriterMsgP Proofs.MsgWriterDecP Proofs.MsgWriterRtP.
+     Proofs.MsgWriterMsgP Proofs.MsgWriterDecP Proofs.MsgWriterHdrP Proofs.MsgWriterRtP.
 From QV Require Import Spec.MsgWriterAbsS.
 
 (* For EVERY operation sequence from a fresh writer, the state satisfies
@@ -121,30 +121,43 @@ Theorem c12_layout_invariant_all_ops : forall d g y A L o, AInv d g L -> LInv d 
   end.
 Proof. exact step2_all. Qed.
 
-(* MESSAGE-LEVEL ROUND TRIP.  For every operation sequence obeying the hint contract, with arguments of
-   the sizes the Rust types enforce ([op_wf], [op_wf2]): the run does not panic and the independent
-   RFC 1035 decoder of Spec/MsgWriterS.v, applied to the finished message, succeeds and returns, in
-   order, the questions and the answer / authority / additional records of the abstract message of the
-   operations that succeeded ([areplay]), followed in the additional section by the OPT and TSIG
-   pseudo-records of the final writer state: owner names and names inside RDATA equal exactly when
-   written in case-preserving / disabled mode and modulo ASCII case otherwise ([name_rel]), type, class,
-   TTL (clamped per RFC 2181 s.8), RDATA octets and the compressible/uncompressible classification of
-   every RDATA name.  Partial w.r.t. the property text: the header id/flags/RCODE are not covered, and
-   the OPT/TSIG values are those of the writer's final state, not re-derived from the operations. *)
-Theorem c12_roundtrip_partial : forall buf limit w0 ops, writer_new buf limit = Ok w0 ->
-  run_contract (mkD w0 []) g0 ops -> Forall op_wf ops -> Forall op_wf2 ops ->
+(* MESSAGE-LEVEL ROUND TRIP: decode(finish(run ops)) = abs(ops).  For every operation sequence obeying
+   the hint contract, with arguments of the sizes the Rust types enforce ([op_wf], [op_wf2], [op_wf3]):
+   the run does not panic and the independent RFC 1035 decoder of Spec/MsgWriterS.v, applied to the
+   finished message, succeeds and returns
+   - the header id, QR, opcode, AA, TC, RD, RA, zero Z bits and RCODE of the header settings denoted by
+     the operations ([hreplay], [hdr_rel]);
+   - in order, the questions and the answer / authority / additional records of the abstract message
+     of the operations that succeeded ([areplay]): owner names and names inside RDATA equal exactly
+     when written in case-preserving / disabled mode and modulo ASCII case otherwise ([name_rel]), type,
+     class, TTL (clamped per RFC 2181 s.8), RDATA octets, and the compressible/uncompressible
+     classification of every RDATA name;
+   - then, in the additional section, the OPT pseudo-record (class = UDP size, TTL = upper bits of the
+     extended RCODE << 24: the value of the last successful set_extended_rcode, reset by set_rcode) and
+     the unsigned TSIG record of the settings denoted by the operations ([pseudo_of]). *)
+Theorem c12_roundtrip : forall buf limit w0 ops, writer_new buf limit = Ok w0 ->
+  run_contract (mkD w0 []) g0 ops -> Forall op_wf ops -> Forall op_wf2 ops -> Forall op_wf3 ops ->
   exists rr, run_writer buf limit ops = Ok rr /\
     match rr_final rr with
     | Some (len, b) =>
-      exists d m, run (mkD w0 []) ops = Ok (d, rr_outcomes rr, true) /\
-        decode_msg (firstn len b) = Some m /\
+      exists m, decode_msg (firstn len b) = Some m /\
+        hdr_rel (hreplay ah0 ops (rr_outcomes rr)) m /\
         Forall2 q_rel (am_qs (areplay am0 ops (rr_outcomes rr))) (m_qs m) /\
         Forall2 (rr_rel xparts) (am_an (areplay am0 ops (rr_outcomes rr))) (m_an m) /\
         Forall2 (rr_rel xparts) (am_ns (areplay am0 ops (rr_outcomes rr))) (m_ns m) /\
-        Forall2 (rr_rel xparts) (am_ar (areplay am0 ops (rr_outcomes rr)) ++ pseudo (d_w d)) (m_ar m)
+        Forall2 (rr_rel xparts)
+          (am_ar (areplay am0 ops (rr_outcomes rr)) ++
+           pseudo_of (exact_of (am_mode (areplay am0 ops (rr_outcomes rr)))) (hreplay ah0 ops (rr_outcomes rr)))
+          (m_ar m)
     | None => True
     end.
-Proof. exact roundtrip. Qed.
+Proof. exact roundtrip_full. Qed.
+
+(* The header octets and the EDNS / TSIG fields of the writer are, after every operation, those of the
+   abstract header settings ([HInv]); bit fields by exhaustive sweeps over the 256 octet values. *)
+Theorem c12_header_invariant : forall d H o d' r, Inv_n (d_w d) -> HInv (d_w d) H -> op_wf3 o ->
+  step d o = Ok (d', r) -> HInv (d_w d') (hstep H o r).
+Proof. exact hstep_ok. Qed.
 
 (* The component table regenerated from the Rust source is the RFC layout of the specification. *)
 Theorem c12_component_table_is_rfc_layout : forall cl ty, layout cl ty = map sf_of (component_types cl ty).
@@ -186,9 +199,9 @@ Proof.
   all: try (intros m E; inversion E; subst; repeat constructor).
 Qed.
 
-Example c12_wf_example : Forall op_wf ex_ops /\ Forall op_wf2 ex_ops.
+Example c12_wf_example : Forall op_wf ex_ops /\ Forall op_wf2 ex_ops /\ Forall op_wf3 ex_ops.
 Proof.
-  split; repeat constructor; simpl; try lia; try (apply wf_bytesb_spec; reflexivity).
+  split; [|split]; repeat constructor; simpl; try lia; try (apply wf_bytesb_spec; reflexivity).
 Qed.
 
 Print Assumptions c12_invariant.
@@ -205,5 +218,6 @@ Print Assumptions c12_no_spurious_truncation_rr.
 Print Assumptions c12_no_spurious_truncation_rrset.
 Print Assumptions c12_no_spurious_truncation_question.
 Print Assumptions c12_layout_invariant_all_ops.
-Print Assumptions c12_roundtrip_partial.
+Print Assumptions c12_roundtrip.
+Print Assumptions c12_header_invariant.
 Print Assumptions c12_component_table_is_rfc_layout.
